@@ -182,7 +182,9 @@ def DoLog (fsm):
 
     screen = fsm.memory[0]
     fsm.memory = [screen]
-    fout = open ('log', 'a')
+    # (a character that the file's encoding cannot represent, e.g. a lone
+    # surrogate, is written as an escape instead of raising)
+    fout = open ('log', 'a', errors='backslashreplace')
     fout.write (fsm.input_symbol + ',' + fsm.current_state + '\n')
     fout.close()
 
